@@ -171,7 +171,10 @@ def check_z3_backend(repo: Repo, rep: Report) -> None:
         c0 = Tag("converted-c0")
         selfo = mkself(variables=[iv, bv], variables_dict={0: Tag("iterm"), 1: Tag("bterm")},
                     converted_constraints=[c0], name="self")
-        r = fde.FunctionValue(solve, ev, genv, self_obj=selfo)()
+        try:
+            r = fde.FunctionValue(solve, ev, genv, self_obj=selfo)()
+        except Raised as ex:
+            r = f"<raises {ex}>"  # e.g. the model is read although z3 said unsat
         if r is False and not iv.stores and not bv.stores:
             rep.ok("Z3M-3", "unsat verdict: returns False without touching sol")
         else:
